@@ -501,6 +501,9 @@ func (v *FV) fieldArraysRec(st types.Type, i int, mod map[string]bool) {
 }
 
 func (v *FV) callMods(fr *Frame, cc *ssa.CallCommon, mod map[string]bool, all *bool, depth int, scanFn func(*ssa.Function, int, map[*ssa.BasicBlock]bool)) {
+	if v.useClock {
+		mod["CLOCK"] = true
+	}
 	if cc.IsInvoke() {
 		mod["CALLS"] = true // ghost counter of interface method invocations
 	} else if _, isParam := cc.Value.(*ssa.Parameter); isParam {
@@ -894,6 +897,9 @@ func (v *FV) loopHeader(fr *Frame, li *loopInfo, st *State) *State {
 		}
 		if mod["LOCKED"] {
 			v.regArray("LOCKED", "(Array Int Bool)")
+		}
+		if mod["CLOCK"] {
+			v.regArray("CLOCK", fmt.Sprintf("(Array Int %s)", v.idx()))
 		}
 	}
 	var frameLocs []string
